@@ -34,20 +34,13 @@
      <<6, cs, res, line, col, ch>> char_set(cs).parse(...):  res = 1 success (ch = the character),
                                    0 failure whose message starts with "Line line:col: ",
                                    -1 failure without a location, -2 exception            *)
-EXTENDS Naturals, Integers, Sequences, FiniteSets, TLC, Json
+EXTENDS Naturals, Integers, Sequences, FiniteSets, TLC, Json, TextPos
 
 CONSTANTS Sym,      \* alphabet (code points) used by the model checker
           MaxLen,   \* texts up to this length are explored
           MaxOps    \* bound on the length of explored operation sequences
 
-NL == 10
-
-MaxOf(S) == CHOOSE x \in S : \A y \in S : y <= x
-
-(* the documented definition, from scratch *)
-Line(text, off) == 1 + Cardinality({i \in 1..off : text[i] = NL})
-LastNL(text, off) == MaxOf({0} \cup {i \in 1..off : text[i] = NL})
-Col(text, off) == off - LastNL(text, off) + 1
+(* NL, Line(text, off), Col(text, off): the documented definition, computed from scratch - module TextPos *)
 Position(text, off) == [off |-> off, line |-> Line(text, off), col |-> Col(text, off)]
 
 AtEnd(text, off) == off = Len(text)
